@@ -102,7 +102,13 @@ func checkC11(c *Ctx) {
 	// for each level of the valid range and one below / one above it.
 	nPaths := 0
 	var badOrder, badHook, badPred, badDiv, badOther, allSeqs []string
+	// (… and the level after that, and both ends of the int8 range: "above the range" is not one value)
+	var probeLevels []int64
 	for L := minL - 1; L <= maxL+1; L++ {
+		probeLevels = append(probeLevels, L)
+	}
+	probeLevels = append(probeLevels, maxL+2, 127, -128)
+	for _, L := range probeLevels {
 		lv := L
 		inRange := lv >= minL && lv <= maxL
 		seqs, trunc := ConcPaths(fn, ConcCfg{
